@@ -39,6 +39,9 @@ func FreePort(host string) int {
 
 // ClusterOpts configures NewClusterNode.
 type ClusterOpts struct {
+	// ShardSubdir, if set, makes the shard manager keep its files in that sub-directory of the node root
+	// instead of the node root itself (the two directories are separate settings of a node)
+	ShardSubdir        string
 	MaxShardSize       int64
 	MaxShardPointCount int64
 	MaxSearchLimit     int
@@ -78,7 +81,7 @@ func NewClusterNode(root string, me NodeSpec, servers []string, o ClusterOpts, s
 	c, err := cluster.NewNode(cluster.ClusterNodeConfig{
 		RootDir: root, RpcHost: me.Host, RpcPort: me.Port, RpcTimeout: o.RpcTimeout, RpcRetries: o.RpcRetries,
 		Servers:            servers,
-		ShardManager:       cluster.ShardManagerConfig{RootDir: root, ShardTimeout: o.ShardTimeout, MaxCacheSize: o.MaxCacheSize},
+		ShardManager:       cluster.ShardManagerConfig{RootDir: filepath.Join(root, o.ShardSubdir), ShardTimeout: o.ShardTimeout, MaxCacheSize: o.MaxCacheSize},
 		MaxShardSize:       o.MaxShardSize,
 		MaxShardPointCount: o.MaxShardPointCount,
 		MaxSearchLimit:     o.MaxSearchLimit,
